@@ -1244,6 +1244,14 @@ class BufferedWriter(IndexWriter):
                 self.timer = threading.Timer(self.period, self.commit)
                 self.timer.start()
 
+    def cancel(self):
+        if self.period:
+            self.timer.cancel()
+        with self.lock:
+            self._make_ram_index()
+            self.bufferedcount = 0
+        self.writer.cancel()
+
     def add_reader(self, reader):
         # Pass through to the underlying on-disk index
         self.writer.add_reader(reader)
